@@ -1237,6 +1237,19 @@ def probe_malformed(rng):
         ("empty window", dict(window_shape=(), step=1)),
         ("None step", dict(window_shape=(2,), step=None)),
     ]
+    # non-integer entries in any of the three arguments, in every sequence form: there is no arr[n, g*step + w*dilation]
+    # for them, so they must be rejected (not truncated)
+    for argname in ("window_shape", "step", "dilation"):
+        for vals in ((1.5, 2.5), (2.5, 1.0), (1.0, 1.5)):
+            for form_name, mk in (("tuple", tuple), ("list", list), ("array", np.array)):
+                kw = dict(window_shape=(2, 2), step=1)
+                kw[argname] = mk(vals)
+                try:
+                    out = sliding_window_view(arr, **kw)
+                except Exception:
+                    continue
+                fails.append((f"non-integer {argname}", f"{argname}={vals} given as a {form_name} was accepted (result shape {out.shape}) "
+                              "although no element equation exists for a fractional window/step/dilation"))
     for name, kw in calls:
         try:
             out = sliding_window_view(arr, **kw)
